@@ -219,7 +219,7 @@ Proof.
   - apply f64_lt_true; reflexivity.
   - reflexivity.
   - unfold v, lo. rewrite f64_zero_eq. reflexivity.
-  - reflexivity.
+  - exact N.
 Qed.
 
 (** "1 at the maximum" for Integer limits: two distinct i64 limits above 2^53
